@@ -579,10 +579,45 @@ func runC31(c *Ctx) {
 	for _, r := range sr {
 		requireAt(c, "pow-gate", "VerifySolution#success", vs, r, "a proof is accepted only after every check passed",
 			lenEq("GetPubKey", "PublicKeySize"), lenEq("GetSignature", "SignatureSize"),
-			factReq{"solution non-empty", cmpFalse(func(g *Fn, be *ast.BinaryExpr) bool {
-				v, _ := g.ConstVal(be.Y)
-				return be.Op == token.EQL && v == "0" && isLenOf(g, be.X, func(e ast.Expr) bool { return g.Prov(e) == "param#0.GetSolution()" })
-			})},
+			factReq{"solution non-empty", func(g *Fn, fs *FactSet) bool {
+				isSol := func(e ast.Expr) bool { return g.Prov(e) == "param#0.GetSolution()" }
+				// len(s) == 0 false, len(s) != 0 / > 0 true, s == "" false, s != "" true
+				return fs.Cmp(func(e, tag ast.Expr, truth bool, fa *Fact) bool {
+					be, ok := ast.Unparen(e).(*ast.BinaryExpr)
+					if !ok || tag != nil {
+						return false
+					}
+					x, y, op := be.X, be.Y, be.Op
+					if v, okc := g.ConstVal(x); okc && (v == "0" || v == `""`) {
+						// constant on the left: mirror
+						x, y = y, x
+						switch op {
+						case token.LSS:
+							op = token.GTR
+						case token.GTR:
+							op = token.LSS
+						case token.LEQ:
+							op = token.GEQ
+						case token.GEQ:
+							op = token.LEQ
+						}
+					}
+					v, okc := g.ConstVal(y)
+					if !okc {
+						return false
+					}
+					switch {
+					case v == "0" && isLenOf(g, x, isSol), v == `""` && isSol(x):
+						switch op {
+						case token.EQL, token.LEQ:
+							return !truth
+						case token.NEQ, token.GTR:
+							return truth
+						}
+					}
+					return false
+				})
+			}},
 			factReq{"ed25519.Verify", func(g *Fn, fs *FactSet) bool {
 				return fs.Has(func(fa *Fact) bool {
 					if fa.Kind != FTrue || !g.IsCall(fa.Call, "crypto/ed25519.Verify") {
